@@ -171,7 +171,21 @@ def run(ctx, rep):
             kc = closure_of_arg(facts, clo, st_, 1)
             det = None
             okk = False
-            if kc:
+            kc_arity = facts.fns[kc]["body"]["arg_count"] if kc else 0
+            if kc and kc_arity == 3:
+                # sort_by(|a, b| a.KEY.cmp(&b.KEY)): a comparator; the key is read off both sides
+                da, db = struct_val(facts, DIAG, "a"), struct_val(facts, DIAG, "b")
+                cp = Machine(facts).run(kc, [Ref(Cell(AdtVal("closure:" + kc, None, {})), True), Ref(Cell(da)), Ref(Cell(db))])
+                det = [fmt_label(lab(x.ret)) for x in cp]
+                if len(cp) == 1 and not [e for e in cp[0].effects if not (e[0] == "call" and e[1].rsplit("::", 1)[1] == "cmp")]:
+                    l = lab(cp[0].ret)
+                    if isinstance(l, tuple) and l[0] == "call" and l[1].rsplit("::", 1)[1] == "cmp" and len(l[2]) == 2:
+                        ka, kb = fmt_label(l[2][0]), fmt_label(l[2][1])
+                        if ka.startswith("a.") and kb.startswith("b.") and ka[2:] == kb[2:] and ka[2:] in ("range.start.offset", "range.start.line_col", "range.start"):
+                            okk = True
+                        elif ka.startswith("(adt, tuple") and kb.startswith("(adt, tuple") and ka.replace("a.", "X.") == kb.replace("b.", "X.") and "range.start.line_col.0" in ka and "range.start.line_col.1" in ka:
+                            okk = True
+            elif kc:
                 d = struct_val(facts, DIAG, "d")
                 cp = Machine(facts).run(kc, [Ref(Cell(AdtVal("closure:" + kc, None, {})), True), Ref(Cell(d))])
                 det = [fmt_label(lab(x.ret)) for x in cp]
@@ -191,8 +205,14 @@ def run(ctx, rep):
                       sample={"sort": callee_name(st_), "key": det})
             # the sorted vector is fr.diagnostics, the one handed to every check
     # sequence sites are discharged by the sort, provided their loop bodies only push diagnostics (C06 L) on distinct ranges
+    CLASSIFIERS = ("validation::check_imports", "validation::check_declared_parcelables")
+    callers_of = {}
+    for pth in reach:
+        for r in g.get(pth, ()):
+            callers_of.setdefault(r, set()).add(pth.split("::{closure")[0])
     for p, f, t, where in seq_sites:
-        allowed = p in ("validation::check_imports", "validation::check_declared_parcelables")
+        # the two classification functions, or a private helper split off from them (called from nowhere else)
+        allowed = p in CLASSIFIERS or (p.startswith("validation::") and bool(callers_of.get(p)) and callers_of[p] <= set(CLASSIFIERS))
         if not allowed:
             # a loop whose only effect is inserting into a fresh map is `collect` into a map written by hand: same rule, same key
             cls = loop_collects_into_map(facts, p)
